@@ -197,6 +197,53 @@ def main():
     if not single_both and re.search(r"theResult \+= \*trailerStrIt; \} else", fl):
         die("formatNumberList: unrecognised else-branch after the trailer append")
 
+    # the numbering resource bundle for letter-value="traditional" (only the Greek one is shipped: initializeTraditionalElalphaBundle)
+    mb = re.search(r"initializeTraditionalElalphaBundle\s*\((.*?)\n\}", txt, flags=re.S)
+    if not mb:
+        die("initializeTraditionalElalphaBundle not found")
+    bt = mb.group(1)
+
+    def num_array(name, typ):
+        mm = re.search(r"static const %s\s+%s\s*\[\s*\]\s*=\s*\{([^}]*)\}" % (typ, name), bt)
+        if not mm:
+            die("bundle array %s not found" % name)
+        return [value(t, consts) for t in mm.group(1).split(",") if t.strip()]
+
+    def term(l, name):
+        if not l or l[-1] != 0:
+            die("bundle array %s is not 0-terminated" % name)
+        return l[:-1]
+    b_groups = num_array("elalphaNumberGroups", "NumberType")
+    b_mults = num_array("elalphaMultipliers", "NumberType")
+    b_mchars = term(num_array("elalphaMultiplierChars", "XalanDOMChar"), "elalphaMultiplierChars")
+    b_tabs = {n: term(num_array(n, "XalanDOMChar"), n) for n in ("elalphaDigits", "elalphaTens", "elalphaHundreds")}
+    flatb = re.sub(r"\s+", " ", bt)
+    order = re.findall(r"XalanDOMCharVectorType\( (\w+), \w+ \+ length\(\w+\), theManager\)\.swap\(theElalphaDigitsTable\[(\d)\]\)", flatb)
+    if sorted(int(i) for _, i in order) != [0, 1, 2]:
+        die("bundle: the three digit tables are not assigned to theElalphaDigitsTable[0..2]")
+    digits_table = [b_tabs[n] for n, i in sorted(order, key=lambda x: int(x[1]))]
+    b_tt = [int(x) for x in re.findall(r"theDigitsTableTable\.push_back\((\d+)\)", flatb)]
+    if len(b_tt) != len(b_groups) or any(t >= len(digits_table) for t in b_tt):
+        die("bundle: digits-table table does not fit the number groups")
+    mcall = re.search(r"XalanNumberingResourceBundle theElaphaBundle\((.*?)\);", flatb)
+    if not mcall:
+        die("bundle constructor call not found")
+    call = mcall.group(1)
+    if "XalanNumberingResourceBundle::eMultiplicativeAdditive" not in call:
+        die("bundle: numbering method is not eMultiplicativeAdditive (re-model)")
+    if "XalanNumberingResourceBundle::ePrecedes" in call:
+        precedes = True
+    elif "XalanNumberingResourceBundle::eFollows" in call:
+        precedes = False
+    else:
+        die("bundle: multiplier order not found")
+    # the zero character vector is the empty `XalanDOMCharVectorType(theManager)` between the multipliers and the multiplier chars
+    if not re.search(r"elalphaMultipliers \+ elalphaMultipliersCount, theManager\), XalanDOMCharVectorType\(theManager\), XalanDOMCharVectorType\( elalphaMultiplierChars",
+                     call):
+        die("bundle: the zero-character vector is not the empty vector (re-model)")
+    if len(b_mchars) != len(b_mults) or 0 in b_groups or 0 in b_mults:
+        die("bundle: multipliers / multiplier characters / groups are inconsistent")
+
     def nats(l):
         return "[" + ", ".join(str(x) for x in l) + "]"
 
@@ -216,6 +263,12 @@ def main():
     out.append("def alphaBufLen : Nat := %d\n" % buflen)
     out.append("def defaultGroupingSeparator : List Nat := %s\n" % nats(gsep))
     out.append("def defaultGroupingSize : Nat := %d\n" % int(mz.group(1)))
+    out.append("/-- a numbering resource bundle as `traditionalAlphaCount` uses it (numbering method eMultiplicativeAdditive, empty zero character) -/")
+    out.append("structure NumberingBundle where\n  groups : List Nat\n  tables : List Nat\n  multipliers : List Nat\n  multiplierChars : List Nat\n"
+               "  digitsTable : List (List Nat)\n  multiplierPrecedes : Bool\nderiving Repr\n")
+    out.append("/-- `s_elalphaResourceBundle` (initializeTraditionalElalphaBundle): Greek, letter-value=\"traditional\" -/")
+    out.append("def elalphaBundle : NumberingBundle :=\n  { groups := %s, tables := %s, multipliers := %s, multiplierChars := %s,\n    digitsTable := [%s],\n    multiplierPrecedes := %s }\n"
+               % (nats(b_groups), nats(b_tt), nats(b_mults), nats(b_mchars), ", ".join(nats(t) for t in digits_table), "true" if precedes else "false"))
     out.append("/-- `formatNumberList`: a format string consisting of one non-alphanumeric token is appended as suffix too -/")
     out.append("def singlePunctuationTokenIsAlsoSuffix : Bool := %s\n" % ("true" if single_both else "false"))
     out.append("end XalanModel.Generated.C17")
